@@ -115,6 +115,7 @@ def run_symbolic(ob, grid, timeout_ms=20000, max_leaves=3000):
     reset_ctx()
     prove.USE_UF[0] = bool(ob.uf_congruence)
     prove.LAST_PROVED_SMT[0] = None
+    T.reset_called()
     t0 = time.time()
     out = dict(oid=ob.oid(grid), status=None, nleaves=0, results=[], cex=None, error=None, seconds=0.0,
                lia=0, backends={})
@@ -170,6 +171,7 @@ def run_symbolic(ob, grid, timeout_ms=20000, max_leaves=3000):
     out['seconds'] = round(time.time() - t0, 3)
     out['lia'] = CTX.stats['lia_queries']
     out['sample_smt'] = prove.LAST_PROVED_SMT[0]
+    out['traced_functions'] = sorted(T.CALLED)
     return out
 
 
